@@ -271,6 +271,17 @@ func (t *e2Trace) judge(wantC08, wantC12 bool) (out []e2Finding) {
 			}
 			v := t.views[e.View-1]
 			if v.H != cur.hr.H || v.R != cur.hr.R {
+				// A bare jump-ahead signal prepared for an earlier round of this height still
+				// names a round: if that is later than the round the machine is in now, the
+				// machine follows it (handleJumpAhead goes by the named round alone).
+				if v.JumpOnly && v.H == cur.hr.H && v.JumpRound > cur.hr.R {
+					if cur.jumpSeq == 0 {
+						cur.jumpSeq = e.Seq
+					}
+					if v.JumpRound > cur.jumpTo {
+						cur.jumpTo = v.JumpRound
+					}
+				}
 				break
 			}
 			cur.views = append(cur.views, &e2OView{v: v, offerSeq: e.Seq})
